@@ -70,14 +70,16 @@ func (r *REPL) SetUI(term UI) {
 			// Print value except if None
 			// After printing, also assign to '_'
 			// Before, set '_' to None to avoid recursion
-			r.Module.Globals["_"] = py.None
-			if value != py.None {
-				repr, err := py.Repr(value)
-				if err != nil {
-					return nil, err
-				}
-				r.term.Print(fmt.Sprint(repr))
+			// None is neither printed nor assigned to '_'
+			if value == py.None {
+				return py.None, nil
 			}
+			r.Module.Globals["_"] = py.None
+			repr, err := py.Repr(value)
+			if err != nil {
+				return nil, err
+			}
+			r.term.Print(fmt.Sprint(repr))
 			r.Module.Globals["_"] = value
 			return py.None, nil
 		}, 0, "displayhook(object) -> None")
